@@ -25,7 +25,7 @@ ASSUMPTIONS = ['Multipliers and slack-adjusted bounds are read from the solver f
                'sys.setprofile; if they are not observable the certificate clauses are counted as degraded, never as violations.',
                'Identity residual tolerance 1e-8 x ||M^-1|| (measured <= 5e-12 on the unchanged tree) on states whose dual scale '
                'growth max(lambda) max||v||^2 / ||M0^-1|| is <= 1e6; complementary slackness tolerance 1e-6 relative at tol = 1e-12.']
-BOUNDS = {'quick': dict(K=6, datasets=['S2', 'S3u', 'S5']), 'thorough': dict(K=20, datasets=['S2', 'S2u', 'S3', 'S3u', 'S5', 'S8', 'R'])}
+BOUNDS = {'quick': dict(K=6, datasets=['S2', 'S3u', 'S5']), 'thorough': dict(K=20, datasets=list(data.THOROUGH))}
 PRIORS = ['identity', 'covariance', 'random', 'array']
 GAMMAS = [0.1, 1.0, 10.0, 1000.0]
 CODE = ml.itml._BaseITML._fit.__code__
@@ -38,6 +38,9 @@ def V(site, clause, msg, triggers=(), **detail):
 def cases(tier, seed):
     b = BOUNDS[tier]
     out = []
+    # (data in tiny units, e.g. S3u * 2^-30, is deliberately NOT in this alphabet: at that scale the pairs sit at the library's
+    # own absolute "collapsed pair" threshold of 1e-9 and ITML's absolute 1e-9 bound floor, i.e. outside the well-formed pair
+    # sets the property quantifies over; the initialiser clause for such data belongs to C20, which covers it)
     for dsn in b['datasets']:
         for pr in PRIORS:
             for gi, g in enumerate(GAMMAS):
@@ -50,7 +53,7 @@ def certificate(site, rec, M, M0inv, gamma, tr, viol, converged, stats):
     """Judge one solver state.  rec: locals captured at _fit's return."""
     d = M.shape[0]
     lam = np.linalg.eigvalsh((M + M.T) / 2)
-    if not np.isfinite(M).all() or lam.min() <= 0 or np.abs(M - M.T).max() > 1e-9 * np.abs(M).max():
+    if not np.isfinite(M).all() or lam.min() <= -1e-10 * abs(lam.max()) or lam.max() <= 0 or np.abs(M - M.T).max() > 1e-9 * np.abs(M).max():
         viol.append(V(site, 'not_spd', 'learned matrix is not symmetric positive definite (lambda_min %.3g)' % lam.min(), tr))
         return False
     need = ('_lambda', 'pos_bhat', 'neg_bhat', 'pos_vv', 'neg_vv')
@@ -129,9 +132,14 @@ def run_case(spec):
              'states_judged_for_identity': 0, 'states_ill_conditioned_not_judged': 0, 'converged_states': 0}
     kind, dsn, pr = spec[0], spec[1], spec[2]
     seed = spec[-1]
-    ds = data.dataset('R', seed) if dsn == 'R' else data.dataset(dsn)
+    if dsn.endswith('*2^-30'):          # the same well-conditioned data expressed in tiny units (exact scaling)
+        ds = data.scaled(data.dataset(dsn.split('*')[0]), 2.0 ** -30)
+    else:
+        ds = data.dataset('R', seed) if dsn == 'R' else data.dataset(dsn)
     d = ds.d
     prv = data.spd(d) if pr == 'array' else pr
+    if dsn.endswith('*2^-30') and pr == 'array':
+        prv = data.spd(d) * 2.0 ** 60       # an SPD prior on the scale of the inverse covariance
     if kind == 'itml':
         gamma, K = spec[3], spec[4]
         P, y = ds.pairs.copy(), ds.ypairs.copy()
